@@ -406,6 +406,46 @@ def archive_check(cfg, nsteps, interval_steps, t_frac, mode, keep_arg):
     return err, tol, ""
 
 
+def callback_check(cfg, nsteps, which):
+    """pre / post timestep modifications (reb_simulation_step synchronizes before calling them and asks for a recalculation
+    of the coordinates afterwards): a callback that damps a velocity must act on the same state with safe_mode 0 and 1."""
+    res = []
+    for safe in (1, 0):
+        sim = make(dict(cfg, safe=safe, keep=0))
+        def cb(simp):
+            ps = simp.contents.particles
+            ps[1].vx *= (1.0 - 1e-3); ps[1].vy *= (1.0 - 1e-3); ps[1].y += 1e-4
+        if which == "post": sim.post_timestep_modifications = cb
+        else: sim.pre_timestep_modifications = cb
+        sim.steps(nsteps); sim.synchronize()
+        res.append((pstate(sim), sim.t))
+    (a, ta), (b_, tb) = res
+    if bits(ta) != bits(tb): return float("inf"), 0.0
+    err = maxdiff(a, b_, scales(cfg, a))
+    angle = abs(cfg["dt"]) * nsteps
+    tol = 2000 * EPS * nsteps * (1.0 + 1.5 * angle) * (10 if cfg.get("corrector", 0) >= 11 else 1)
+    return err, tol
+
+
+def midsync_check(cfg, nsteps, marks):
+    """safe_mode=0, keep_unsynchronized=0: synchronize() calls in the middle of the run (outputs) leave the trajectory that of
+    safe mode, to rounding (every synchronize must leave the integrator able to continue: coordinates recomputed)."""
+    a = run_seq(dict(cfg, safe=1, keep=0), [("step", nsteps)])
+    sim = make(dict(cfg, safe=0, keep=0))
+    for i in range(nsteps):
+        if i in marks: sim.synchronize()
+        sim.steps(1)
+    sim.synchronize()
+    b_ = pstate(sim)
+    err = maxdiff(a["p"], b_, scales(cfg, a["p"]))
+    angle = abs(cfg["dt"]) * nsteps
+    tol = 2000 * EPS * nsteps * (1.0 + 1.5 * angle) * (10 if cfg.get("corrector", 0) >= 11 else 1)
+    if cfg["integ"] == "eos":
+        h = run_seq(dict(cfg, safe=1, keep=0, dt=cfg["dt"] / 2), [("step", 2 * nsteps)])
+        tol += 200 * maxdiff(a["p"], h["p"], scales(cfg, a["p"]))
+    return err, tol
+
+
 def eos_check(cfg, nsteps):
     cs = dict(cfg, safe=1, keep=0); cu = dict(cfg, safe=0, keep=0)
     a = run_seq(cs, [("step", nsteps)]); b = run_seq(cu, [("step", nsteps)])
@@ -518,8 +558,34 @@ def main():
         if not (err <= tol):
             fail("exact-finish-differs:" + cfg["integ"], "integrate(exact_finish_time=1): safe_mode 0 and 1 differ by %.3g (tolerance %.3g)" % (err, tol),
                  {"check": "exact", "cfg": cfg, "nsteps": n})
+    # ---- timestep-modification callbacks and synchronize calls in the middle of a deferred run
+    plain = [c for c in scfgs if c["integ"] != "whfast512" and not c.get("corrector2") and not c.get("var")]
+    for c0 in plain * (3 if thorough else 1):
+        cfg = finish_cfg(rng, c0); n = rng.choice([2, 5, 11]); which = rng.choice(["post", "pre"])
+        try:
+            err, tol = callback_check(cfg, n, which)
+        except Exception as e:
+            err, tol = float("inf"), 0.0
+        rep["evaluations"] += 1; keys.add(("callback", label(cfg), which, n))
+        worst["callback"] = max(worst.get("callback", 0.0), err / tol if tol else float("inf"))
+        if not (err <= tol):
+            fail("timestep-modification-unsynchronized:" + cfg["integ"], "%s_timestep_modifications with safe_mode 0 and 1 differ by %.3g (tolerance %.3g)" % (which, err, tol),
+                 {"check": "callback", "cfg": cfg, "nsteps": n, "which": which})
+    for c0 in (plain + [e for e in ecfgs if e["phi1"] == 0][:5]) * (3 if thorough else 1):
+        cfg = finish_cfg(rng, c0)
+        if cfg["integ"] == "eos": cfg["dt"] = 0.02 * 2 * math.pi
+        n = rng.choice([4, 9]); marks = sorted(rng.sample(range(1, n), 2))
+        try:
+            err, tol = midsync_check(cfg, n, marks)
+        except Exception as e:
+            err, tol = float("inf"), 0.0
+        rep["evaluations"] += 1; keys.add(("midsync", label(cfg), n))
+        worst["midsync"] = max(worst.get("midsync", 0.0), err / tol if tol else float("inf"))
+        if not (err <= tol):
+            fail("synchronize-mid-run-changes-trajectory:" + cfg["integ"], "deferred run with synchronize calls before steps %s differs from safe mode by %.3g (tolerance %.3g)" % (marks, err, tol),
+                 {"check": "midsync", "cfg": cfg, "nsteps": n, "marks": marks})
     # ---- variational particles crossing the rescaling threshold (reb_simulation_rescale_var), safe vs deferred
-    for k in range(40 if thorough else 10):
+    for k in range(0 if avx else (40 if thorough else 10)):
         cfg = finish_cfg(rng, {"integ": "whfast", "corrector": rng.choice([0, 0, 3, 11])}); cfg["dt"] = abs(cfg["dt"])
         amp = rng.choice([3e99, 9.9e99, 1e100, 1.0, 2e100]); megno = rng.random() < 0.4; n = rng.choice([5, 40, 200])
         try:
@@ -532,7 +598,7 @@ def main():
     # ---- the Simulationarchive path: getSimulation(t, mode, keep_unsynchronized) of a safe_mode=0 archive
     acfgs = [{"integ": "whfast"}, {"integ": "whfast", "corrector": 11}, {"integ": "whfast", "coordinates": 1}, {"integ": "whfast", "kernel": 2},
              {"integ": "saba", "type": 0x6}, {"integ": "saba", "type": 0x1}, {"integ": "saba", "type": 0x102}, {"integ": "mercurius"}]
-    for c0 in acfgs * (4 if thorough else 1):
+    for c0 in ([] if avx else acfgs) * (4 if thorough else 1):
         for mode in ("exact", "close", "snapshot"):
             for keep_arg in (None, 0, 1):
                 cfg = finish_cfg(rng, c0); cfg["dt"] = abs(cfg["dt"])
@@ -601,6 +667,12 @@ def replay(rep):
     if ch == "sync_twice": return _safe(sync_twice, cfg, seq)
     if ch == "safe_vs_unsafe":
         err, tol, note = safe_vs_unsafe(cfg, r["nsteps"], r["keep"])
+        return None if err <= tol else "differs by %.3g (tolerance %.3g)" % (err, tol)
+    if ch == "callback":
+        err, tol = callback_check(cfg, r["nsteps"], r["which"])
+        return None if err <= tol else "differs by %.3g (tolerance %.3g)" % (err, tol)
+    if ch == "midsync":
+        err, tol = midsync_check(cfg, r["nsteps"], r["marks"])
         return None if err <= tol else "differs by %.3g (tolerance %.3g)" % (err, tol)
     if ch == "rescale":
         return rescale_check(cfg, r["nsteps"], r["amp"], r["megno"])[0]
